@@ -77,3 +77,16 @@ def shiftRightConst (a : Sig) (k : Nat) : Sig :=
   (a.1, Spec.comb .concat [(k, 0), hi] a.1)
 
 end Pyrtl.Ops
+
+namespace Pyrtl.Ops
+/-- `rtllib.multipliers._twos_comp_conditional(w, sign)`: `~w + 1` kept in `len(w)` bits when `sign`, else `w` -/
+def twosCompCond (x : Sig) (s : Bool) : Sig :=
+  if s then (x.1, (2 ^ x.1 - 1 - x.2 + 1) % 2 ^ x.1) else x
+
+/-- `rtllib.multipliers.signed_tree_multiplier(A, B)` over an unsigned multiplier `mul` (the tree multiplier) -/
+def signedTreeMult (mul : Sig → Sig → Sig) (A B : Sig) : Sig :=
+  let aneg := msb A == 1
+  let bneg := msb B == 1
+  let res := zeroExtended (mul (twosCompCond A aneg) (twosCompCond B bneg)) (A.1 + B.1)
+  twosCompCond res (aneg != bneg)
+end Pyrtl.Ops
